@@ -457,6 +457,26 @@ func TestVFC15Parser(t *testing.T) {
 	})
 }
 
+// TestVFC15ParserAfterManyRules: the same generated texts behind hundreds or
+// thousands of ordinary rules: what the parser does with a line must not
+// depend on how many rules came before it.
+func TestVFC15ParserAfterManyRules(t *testing.T) {
+	vfkit.Begin(t)
+	vfC15Quiet()
+
+	rapid.Check(t, func(t *rapid.T) {
+		tail, kinds := vfC15DrawText(t)
+		k := rapid.SampledFrom([]int{100, 511, 512, 513, 600, 3000}).Draw(t, "rules_before")
+		buf := &bytes.Buffer{}
+		for i := 0; i < k; i++ {
+			fmt.Fprintf(buf, "||p%d.prefix.test^\n", i)
+		}
+		buf.Write(tail)
+		kinds[fmt.Sprintf("after_rules:%d", k)]++
+		vfC15ParserCase(t, buf.Bytes(), kinds)
+	})
+}
+
 // TestVFC15ParserLong: texts with lines around the read-buffer sizes and the
 // 64 KiB token limit.
 func TestVFC15ParserLong(t *testing.T) {
